@@ -36,24 +36,26 @@ type targetPanic struct {
 
 // Config of one harness instance.
 type Config struct {
-	Params      map[string]int
-	Unwind      int   // max visits of one block per frame activation
-	MaxSteps    int64 // per path
-	MaxPaths    int
-	MaxDepth    int
-	ConcMax     int // max distinct values in a concretisation
-	ConcSample  int // if > 0: follow only this many values of a concretised slice bound / length (a stated sampling: the obligations at the site itself are decided for every value before the split)
-	TimeoutMs   int
-	Abstract    map[string]string // function full name -> UF symbol
-	Summarize   map[string]bool   // functions replaced by pure-callee summaries
-	Concrete    map[string]string // replay-mode concrete inputs (co-simulation)
-	Deadline    time.Time
-	AllocFactor int // C07: allocation bound factor (0 = off)
-	AllocBase   int
-	InputLen    int
-	LockGuard   *LockGuard
-	CheckPrefix []string // when set, only harness checks whose id starts with one of these are decided (others are skipped, not assumed)
-	LossyFmt    bool     // decimal/hex rendering of symbolic integers yields a placeholder (totality harnesses only)
+	Params         map[string]int
+	Unwind         int   // max visits of one block per frame activation
+	MaxSteps       int64 // per path
+	MaxPaths       int
+	MaxDepth       int
+	ConcMax        int // max distinct values in a concretisation
+	ConcSample     int // if > 0: follow only this many values of a concretised slice bound / length (a stated sampling: the obligations at the site itself are decided for every value before the split)
+	TimeoutMs      int
+	Abstract       map[string]string // function full name -> UF symbol
+	Summarize      map[string]bool   // functions replaced by pure-callee summaries
+	Concrete       map[string]string // replay-mode concrete inputs (co-simulation)
+	Deadline       time.Time
+	AllocFactor    int // C07: allocation bound factor (0 = off)
+	AllocBase      int
+	InputLen       int
+	LockGuard      *LockGuard
+	CheckPrefix    []string // when set, only harness checks whose id starts with one of these are decided (others are skipped, not assumed)
+	LossyFmt       bool     // decimal/hex rendering of symbolic integers yields a placeholder (totality harnesses only)
+	FixedClock     bool     // time.Now returns concrete instants one second apart (harnesses in which only the order of instants matters)
+	PreemptAtLocks bool     // goroutines yield before every mutex acquire and after every release (the schedule that separates critical sections)
 }
 
 type Exec struct {
